@@ -348,6 +348,40 @@ def op_to_meshtri_unused(m, rng):
     return None, {}
 
 
+def op_join_unused_left(m, rng):
+    """m + other and m @ [other] where the LEFT operand has unused trailing points (as the parts returned by @ have)"""
+    from dataclasses import replace
+    extra = 40.0 + np.arange(2 * m.p.shape[0], dtype=float).reshape(m.p.shape[0], 2)
+    mu = replace(m, doflocs=np.hstack((m.p, extra)), _boundaries=None, _subdomains=None)
+    dim = m.p.shape[0]
+    dv = [0.0] * dim
+    dv[0] = float(m.p[0].max() - m.p[0].min())
+    o = replace(m, _boundaries=None, _subdomains=None).translated(dv)
+    nv = m.elem.refdom.nnodes
+    srt = type(m).__name__.startswith('MeshTri')
+    distinct = {tuple(c) for c in np.hstack((mu.p, o.p)).T.tolist()}
+    for what, M in (('join-unused-left', mu + o), ('matmul-unused-left', None)):
+        if M is None:
+            out = mu @ [o]
+            need(np.array_equal(out[0].p, out[1].p), what + ':shared-p', '')
+            parts = [(out[0], mu, range(mu.t.shape[1])), (out[1], o, range(o.t.shape[1]))]
+            P = out[0].p
+        else:
+            n1 = mu.t.shape[1]
+            need(M.t.shape[1] == n1 + o.t.shape[1], what + ':cell-count', '')
+            parts = [(M, mu, range(n1)), (M, o, range(o.t.shape[1]))]
+            P = M.p
+        need(P.shape[1] == len(distinct) and len({tuple(c) for c in P.T.tolist()}) == len(distinct), what + ':vertex-count',
+             f'{P.shape[1]} points, {len(distinct)} distinct coordinate tuples')
+        for pi, (Mx, src, rr) in enumerate(parts):
+            off = mu.t.shape[1] if (pi == 1 and Mx is M and M is not None) else 0
+            for k in rr:
+                need(Mx.t[:nv, k + off].max() < Mx.p.shape[1], what + ':index-range', f'cell {k}')
+                a, b = cols(Mx.p, Mx.t[:nv, k + off]), cols(src.p, src.t[:nv, k])
+                need(set(a) == set(b) if srt else a == b, what + ':cell-geometry', f'part {pi}, cell {k}')
+    return None, {}
+
+
 def op_second_order(base, rng):
     """restrict / remove_elements / remove_unused_nodes on the second-order mesh over `base`: every local node of every kept
     cell keeps its coordinates, no node is left unused, the vertex map points at the old vertices"""
